@@ -364,6 +364,42 @@ impl Table {
     }
 }
 
+/// Verification hooks
+#[cfg(feature = "verif_hooks")]
+impl Table {
+    /// List `(block offset, keys in the block)` for every data block of the table.
+    pub(crate) fn verif_blocks(&self) -> Result<Vec<(u64, Vec<crate::verif::VKey>)>, String> {
+        let mut blocks = vec![];
+        let mut index_iter = self.index_block.iter();
+        index_iter.seek_to_first().map_err(|e| e.to_string())?;
+        while index_iter.is_valid() {
+            let (_, raw_handle) = index_iter.current().unwrap();
+            let handle = BlockHandle::try_from(raw_handle).map_err(|e| e.to_string())?;
+            let reader: DataBlockReader =
+                Table::get_data_block_reader_from_disk(&*self.file, &handle)
+                    .map_err(|e| e.to_string())?;
+            let mut keys = vec![];
+            let mut block_iter = reader.iter();
+            block_iter.seek_to_first().map_err(|e| e.to_string())?;
+            while block_iter.is_valid() {
+                keys.push(crate::verif::VKey::from(block_iter.current().unwrap().0));
+                block_iter.next();
+            }
+            blocks.push((handle.get_offset(), keys));
+            index_iter.next();
+        }
+
+        Ok(blocks)
+    }
+
+    /// Ask the filter block; `None` if the table has no filter block.
+    pub(crate) fn verif_filter_may_match(&self, block_offset: u64, user_key: &[u8]) -> Option<bool> {
+        self.maybe_filter_block
+            .as_ref()
+            .map(|filter_block| filter_block.key_may_match(block_offset, user_key))
+    }
+}
+
 impl fmt::Debug for Table {
     fn fmt(&self, f: &mut fmt::Formatter<'_>) -> fmt::Result {
         f.debug_struct("Table")
@@ -608,6 +644,8 @@ impl RainDbIterator for TwoLevelIterator {
                     error: {}",
                     error
                 );
+                #[cfg(feature = "verif_hooks")]
+                crate::verif::bump(crate::verif::Counter::IterErrorSwallowed);
                 return None;
             }
         }
@@ -638,6 +676,8 @@ impl RainDbIterator for TwoLevelIterator {
                     error: {}",
                     error
                 );
+                #[cfg(feature = "verif_hooks")]
+                crate::verif::bump(crate::verif::Counter::IterErrorSwallowed);
                 return None;
             }
         }
